@@ -29,9 +29,9 @@ func init() {
 	vc.Register(&vc.Check{ID: "C15", Level: "exploration", Run: run, Replay: replay, QuickSec: 95, ThoroSec: 840,
 		Rule: "round trip: every subset of the 14 file types (16 384) with file contents rotating through the reflds seed/enumeration pool, " +
 			"through Document.ToCbor/NewDocumentFromCbor and, for every subset of the 3 evidence mechanisms, through DocumentEx.ToCbor/UnmarshalVerifiableDoc; " +
-			"the evidence bundle alone for all 4^3 (absent | 3 size variants) combinations; every file of reflds.Enumerate for every kind alone and inside the full document; " +
+			"the evidence bundle alone for all 4^3 (absent | 3 size variants) combinations x every subset of the evidence-carrying results recording the live run as failed; every file of reflds.Enumerate for every kind alone and inside the full document; " +
 			"DG13 sizes across the CBOR length-form boundaries; every byte-string evidence field x 9 value shapes (leading zero octets, all zero, single octet, empty ...); " +
-			"HISTORIES on one Document object: every sequence of 4 (thorough 5) operations over {export, export through DocumentEx, caller overwrites the returned blob, set a / set b / remove for 5 slots} with every export imported and compared with a map model. Corruption: for each representative blob of each of the three envelopes EVERY byte position x all 255 other values, " +
+			"HISTORIES on one Document object: every sequence of 4 (thorough 5) operations over {export, export through DocumentEx, caller overwrites the returned blob, set a / set b / remove for 5 slots} with every export imported and compared with a map model, and after every operation every blob returned so far still byte-identical to what it was when returned (a later library call must not reach into a blob the caller holds). Corruption: for each representative blob of each of the three envelopes EVERY byte position x all 255 other values, " +
 			"every truncation length and all 256 one-byte extensions; import must fail or return exactly the exported content. Forged envelopes (each foreign magic, newer versions, also nested and re-sealed) must be rejected. " +
 			"distinct_nontrivial = distinct documents round-tripped + distinct corrupted blobs that got past the CBOR decoding of the outer envelope (by error text; accounting only)",
 		Assume: []string{
@@ -419,6 +419,9 @@ type evSpec struct {
 	CA           int  `json:"ca"`
 	PC           int  `json:"paceCam"`
 	EmptyResults bool `json:"emptyResults,omitempty"` // absent mechanisms carry a Result without Evidence instead of no Result
+	// FailedMask: the Result that carries the evidence records the live run as NOT successful (bit 1 active
+	// authentication, 2 chip authentication, 4 PACE-CAM) - the evidence of a failed run is evidence all the same
+	FailedMask int `json:"failedMask,omitempty"`
 	// Field / Shape: one byte-string evidence field ("aa.Nonce", "ca.SmSsc", "pc.EcadIC", ...) takes a value of the
 	// given shape instead of the variant's pattern (see shapeValue)
 	Field string `json:"field,omitempty"`
@@ -543,7 +546,7 @@ func (r recipe) key() string {
 	for _, n := range names {
 		sb.WriteString("|" + n + "=" + r.Files[n])
 	}
-	fmt.Fprintf(&sb, "|ev=%d%d%d%v", r.Ev.AA, r.Ev.CA, r.Ev.PC, r.Ev.EmptyResults)
+	fmt.Fprintf(&sb, "|ev=%d%d%d%v%d", r.Ev.AA, r.Ev.CA, r.Ev.PC, r.Ev.EmptyResults, r.Ev.FailedMask)
 	if r.Ev.Field != "" {
 		sb.WriteString("|" + r.Ev.Field + "=" + r.Ev.Shape)
 	}
@@ -633,17 +636,17 @@ func (m *model) document() *document.Document {
 func (m *model) session() *document.Session {
 	var s document.Session
 	if m.aa != nil {
-		s.ActiveAuthResult = &document.ActiveAuthResult{Success: true, Evidence: cloneAA(m.aa)}
+		s.ActiveAuthResult = &document.ActiveAuthResult{Success: m.rec.Ev.FailedMask&1 == 0, Evidence: cloneAA(m.aa)}
 	} else if m.rec.Ev.EmptyResults {
 		s.ActiveAuthResult = &document.ActiveAuthResult{Success: true}
 	}
 	if m.ca != nil {
-		s.ChipAuthResult = &document.ChipAuthResult{Success: true, Evidence: cloneCA(m.ca)}
+		s.ChipAuthResult = &document.ChipAuthResult{Success: m.rec.Ev.FailedMask&2 == 0, Evidence: cloneCA(m.ca)}
 	} else if m.rec.Ev.EmptyResults {
 		s.ChipAuthResult = &document.ChipAuthResult{Success: false}
 	}
 	if m.pc != nil {
-		s.PaceCamResult = &document.PaceCamResult{Success: true, Evidence: clonePC(m.pc)}
+		s.PaceCamResult = &document.PaceCamResult{Success: m.rec.Ev.FailedMask&4 == 0, Evidence: clonePC(m.pc)}
 	} else if m.rec.Ev.EmptyResults {
 		s.PaceCamResult = &document.PaceCamResult{Success: true}
 	}
@@ -1539,7 +1542,7 @@ outer2:
 
 	// ---- (3) evidence bundle: all (absent | variant 1..3)^3 combinations, both envelopes that carry evidence
 	sec = "roundtrip/evidence-combinations"
-	c.SecBound(sec, "all 4^3 combinations of (absent | 3 size variants) per mechanism x (no Result | Result without Evidence for absent ones) x {bundle alone, DocumentEx with empty document, DocumentEx with full document}")
+	c.SecBound(sec, "all 4^3 combinations of (absent | 3 size variants) per mechanism x (no Result | Result without Evidence for absent ones) x every subset of the evidence-carrying Results recording the live run as failed x {bundle alone, DocumentEx with empty document, DocumentEx with full document}")
 	for a := 0; a < 4; a++ {
 		for ca := 0; ca < 4; ca++ {
 			for p := 0; p < 4; p++ {
@@ -1547,10 +1550,15 @@ outer2:
 					if !c.Mine() {
 						continue
 					}
-					ev := evSpec{AA: a, CA: ca, PC: p, EmptyResults: er}
-					rn.do(sec, recipe{Importer: "evidence", Ev: ev})
-					rn.do(sec, recipe{Importer: "verifiable", Ev: ev})
-					rn.do(sec, recipe{Importer: "verifiable", Files: docSeedFiles(), Ev: ev})
+					for fm := 0; fm < 8; fm++ {
+						if (fm&1 != 0 && a == 0) || (fm&2 != 0 && ca == 0) || (fm&4 != 0 && p == 0) {
+							continue // the flag belongs to a Result that carries evidence
+						}
+						ev := evSpec{AA: a, CA: ca, PC: p, EmptyResults: er, FailedMask: fm}
+						rn.do(sec, recipe{Importer: "evidence", Ev: ev})
+						rn.do(sec, recipe{Importer: "verifiable", Ev: ev})
+						rn.do(sec, recipe{Importer: "verifiable", Files: docSeedFiles(), Ev: ev})
+					}
 				}
 			}
 		}
@@ -1589,7 +1597,7 @@ outer2:
 		if thorough {
 			depth = 5
 		}
-		c.SecBound(sec, fmt.Sprintf("every sequence of exactly %d operations over %d operations {export, export through DocumentEx, caller overwrites the returned blob, set content a / b and remove for each of cardAccess, com, sod, dg1 (NewDG), dg14 (NewDG)} followed by a final export; every export in the sequence is imported and compared with a map model", depth, len(alpha)))
+		c.SecBound(sec, fmt.Sprintf("every sequence of exactly %d operations over %d operations {export, export through DocumentEx, caller overwrites the returned blob, set content a / b and remove for each of cardAccess, com, sod, dg1 (NewDG), dg14 (NewDG)} followed by a final export; every export in the sequence is imported and compared with a map model; after every operation each blob returned so far must be unchanged", depth, len(alpha)))
 		total := 1
 		for i := 0; i < depth; i++ {
 			total *= len(alpha)
